@@ -325,6 +325,10 @@ def main():
                 except Exception:  # noqa
                     bad.append(p)
             res["canary_changed"] = bad
+            for p in bad:                          # restore, so that later cases are judged on their own
+                with open(p, "wb") as fh:
+                    fh.write(canaries[p][0])
+                canaries[p] = (canaries[p][0], os.stat(p).st_mtime_ns)
             for leftover in os.listdir(root):      # keep later cases independent
                 shutil.rmtree(os.path.join(root, leftover), ignore_errors=True)
             for leftover in os.listdir(cwd):
